@@ -373,6 +373,8 @@ func getContentAtCommit(cmd CommandRunner, commit, fpath string) []byte {
 func CountLines(body []byte) (lines []int) {
 	var line int
 	s := bufio.NewScanner(bytes.NewReader(body))
+	// Lines of a rule file can be longer than the default 64KiB token limit of the scanner.
+	s.Buffer(nil, len(body)+1)
 	for s.Scan() {
 		line++
 		lines = append(lines, line)
